@@ -96,7 +96,7 @@ type lockHolder struct {
 
 func runLockCase(c *lockCase) (vs []Violation, s *sim.Sim, hash string) {
 	runCounter++
-	dir := filepath.Join(RunDirBase, fmt.Sprintf("l%d", runCounter))
+	dir := filepath.Join(RunDirBase, "l")
 	s = sim.New(sim.Config{Seed: c.Seed, Policy: c.Policy, Sticky: c.Sticky, KeepLog: keepLog})
 	w, err := sim.NewWorld(s, dir)
 	if err != nil {
